@@ -195,6 +195,28 @@ func (p *Program) Name(fn *ssa.Function) string {
 	return s
 }
 
+// ObjName is the name an object had in the pinned tree (its current name
+// unless the rename resolution matched it with a baseline symbol): constructs,
+// table keys and known findings are spelled in baseline names.
+func (p *Program) ObjName(o types.Object) string {
+	if o == nil {
+		return ""
+	}
+	if p.Ren != nil && len(p.Ren.OldName) > 0 {
+		var k types.Object = o
+		switch x := o.(type) {
+		case *types.Var:
+			k = x.Origin()
+		case *types.Func:
+			k = x.Origin()
+		}
+		if old, ok := p.Ren.OldName[k]; ok {
+			return old
+		}
+	}
+	return o.Name()
+}
+
 // Func resolves a repo-relative function name, nil when absent.
 func (p *Program) Func(name string) *ssa.Function { return p.byName[name] }
 
